@@ -117,6 +117,27 @@ type methodPlan struct {
 	in     []reflect.Type // parameters after the receiver (the variadic tail dropped)
 	skip   string         // why it is not called
 	writes bool           // takes an io.Writer: its cost grows with what is below the receiver
+	// direct calls for the receivers there are most of (entries, statements, values, the small enumerations);
+	// every other method is called through reflect.Value.Call
+	fast    func(recv any)
+	fastStr func(recv any, arg string)
+}
+
+// nodeCall: the methods of the Node interface itself are called through the interface.
+func nodeCall(name string) func(any) {
+	switch name {
+	case "Kind":
+		return func(r any) { _ = r.(yang.Node).Kind() }
+	case "NName":
+		return func(r any) { _ = r.(yang.Node).NName() }
+	case "Statement":
+		return func(r any) { _ = r.(yang.Node).Statement() }
+	case "ParentNode":
+		return func(r any) { _ = r.(yang.Node).ParentNode() }
+	case "Exts":
+		return func(r any) { _ = r.(yang.Node).Exts() }
+	}
+	return nil
 }
 
 func (p *methodPlan) label() string { return p.typ + "." + p.name }
@@ -184,7 +205,7 @@ type readback struct {
 var inventory = map[string]bool{} // labels already reported by this child
 
 func newReadback() *readback {
-	return &readback{plans: map[reflect.Type][]*methodPlan{}, seenPtr: map[uintptr]bool{}, seenT: map[*yang.YangType]bool{}, outLimit: 24 << 20, findLeft: 8, pfxLeft: 300}
+	return &readback{plans: map[reflect.Type][]*methodPlan{}, seenPtr: map[uintptr]bool{}, seenT: map[*yang.YangType]bool{}, outLimit: 1 << 20, findLeft: 4, pfxLeft: 300}
 }
 
 func (rb *readback) plansOf(t reflect.Type) []*methodPlan {
@@ -219,6 +240,12 @@ func (rb *readback) plansOf(t reflect.Type) []*methodPlan {
 					}
 				}
 			}
+			if p.skip == "" {
+				p.fast, p.fastStr = fastCall(m.Func.Interface())
+				if _, isNodeMethod := nodeType.MethodByName(m.Name); p.fast == nil && isNodeMethod && t.Implements(nodeType) && len(p.in) == 0 {
+					p.fast = nodeCall(m.Name)
+				}
+			}
 			out = append(out, p)
 			if !inventory[p.label()] {
 				inventory[p.label()] = true
@@ -232,6 +259,48 @@ func (rb *readback) plansOf(t reflect.Type) []*methodPlan {
 	}
 	rb.plans[t] = out
 	return out
+}
+
+// fastCall returns a direct call for a method expression of a known shape (what such a method returns
+// needs no reading: strings, booleans, nodes that the walk visits anyway).
+func fastCall(f any) (func(any), func(any, string)) {
+	switch f := f.(type) {
+	case func(*yang.Entry) string:
+		return func(r any) { _ = f(r.(*yang.Entry)) }, nil
+	case func(*yang.Entry) bool:
+		return func(r any) { _ = f(r.(*yang.Entry)) }, nil
+	case func(*yang.Entry) []string:
+		return func(r any) { _ = f(r.(*yang.Entry)) }, nil
+	case func(*yang.Entry) (string, bool):
+		return func(r any) { _, _ = f(r.(*yang.Entry)) }, nil
+	case func(*yang.Entry, string) *yang.Entry:
+		return nil, func(r any, a string) { _ = f(r.(*yang.Entry), a) }
+	case func(*yang.Statement) string:
+		return func(r any) { _ = f(r.(*yang.Statement)) }, nil
+	case func(*yang.Statement) (string, bool):
+		return func(r any) { _, _ = f(r.(*yang.Statement)) }, nil
+	case func(*yang.Statement) *yang.Statement:
+		return func(r any) { _ = f(r.(*yang.Statement)) }, nil
+	case func(*yang.Statement) []*yang.Statement:
+		return func(r any) { _ = f(r.(*yang.Statement)) }, nil
+	case func(*yang.Statement) yang.Node:
+		return func(r any) { _ = f(r.(*yang.Statement)) }, nil
+	case func(*yang.Value) string:
+		return func(r any) { _ = f(r.(*yang.Value)) }, nil
+	case func(*yang.Value) *yang.Statement:
+		return func(r any) { _ = f(r.(*yang.Value)) }, nil
+	case func(*yang.Value) []*yang.Statement:
+		return func(r any) { _ = f(r.(*yang.Value)) }, nil
+	case func(*yang.Value) yang.Node:
+		return func(r any) { _ = f(r.(*yang.Value)) }, nil
+	case func(yang.TriState) string:
+		return func(r any) { _ = f(r.(yang.TriState)) }, nil
+	case func(yang.TriState) bool:
+		return func(r any) { _ = f(r.(yang.TriState)) }, nil
+	case func(yang.EntryKind) string:
+		return func(r any) { _ = f(r.(yang.EntryKind)) }, nil
+	}
+	return nil, nil
 }
 
 func synthesisable(pt, recv reflect.Type) bool {
@@ -304,6 +373,7 @@ func (rb *readback) callAll(recv reflect.Value, ctx *callCtx) {
 	}
 	curEntry.Store(ctx.entry)
 	noMods := guardRootNotModule && t == entryType && !rootIsModule(recv.Interface().(*yang.Entry))
+	ri := recv.Interface()
 	for _, p := range plans {
 		if p.skip != "" {
 			continue
@@ -314,12 +384,51 @@ func (rb *readback) callAll(recv reflect.Value, ctx *callCtx) {
 		if ctx.onlyWrite && !p.writes {
 			continue
 		}
+		if p.fast != nil {
+			curArg.Store(nil)
+			curPlan.Store(p)
+			rb.calls++
+			p.fast(ri)
+			continue
+		}
+		if p.fastStr != nil {
+			strs := ctx.names
+			if p.name == "Find" && t == entryType {
+				strs = ctx.find
+			}
+			curPlan.Store(p)
+			for k := range strs {
+				curArg.Store(&strs[k])
+				rb.calls++
+				p.fastStr(ri, strs[k])
+			}
+			continue
+		}
 		m := recv.Method(p.idx)
 		if len(p.in) == 0 {
 			curArg.Store(nil)
 			curPlan.Store(p)
 			rb.calls++
-			rb.touch(m.Call(nil))
+			// the common shapes are called directly (reflect.Value.Call costs several allocations); what they
+			// return needs no reading
+			switch f := m.Interface().(type) {
+			case func() string:
+				_ = f()
+			case func() bool:
+				_ = f()
+			case func() []string:
+				_ = f()
+			case func() yang.Node:
+				_ = f()
+			case func() *yang.Statement:
+				_ = f()
+			case func() []*yang.Statement:
+				_ = f()
+			case func() (string, bool):
+				_, _ = f()
+			default:
+				rb.touch(m.Call(nil))
+			}
 			continue
 		}
 		// candidates per parameter
@@ -373,10 +482,10 @@ func (rb *readback) callAll(recv reflect.Value, ctx *callCtx) {
 		if writes && (ctx.noWrite || rb.out.n > rb.outLimit) {
 			continue
 		}
-		// the product of the candidates, at most 512 calls
+		// the product of the candidates, at most 1024 calls
 		idx := make([]int, len(cands))
 		args := make([]reflect.Value, len(cands))
-		for n := 0; n < 512; n++ {
+		for n := 0; n < 1024; n++ {
 			var sarg *string
 			for i := range cands {
 				if len(cands[i]) == 0 {
@@ -455,40 +564,83 @@ var findSpecials = []string{"/", ".", "..", "../..", "//", "/.", "/..", "a//b", 
 	"a[1]", "a[b='c']/d", "a[b=current()/../c]", "current()/..", "deref(../a)/b", "/a[", "a]", "x][", "/x][", "x]k[", "][", "]", "[", "(", "\"", "a\x00b", "é/☃",
 	"input", "output", "input/zz", "/input", "input][", "output]k["}
 
-// findPool is the family of paths Entry.Find is called with on e: the own path, the specials, the
-// bracket shapes at every step position of the own path (after the step, as a step of their own,
-// in front of everything), relative forms below and beside e, and a few with an unknown prefix
-// (those leave an error on the root entry, so their number per history is bounded).
-func (rb *readback) findPool(e *yang.Entry, own string) []string {
-	out := make([]string, 0, 128)
-	out = append(out, own)
-	out = append(out, findSpecials...)
-	steps := strings.Split(strings.TrimPrefix(own, "/"), "/")
-	pos := make([]int, 0, 6)
-	for i := range steps {
-		if i < 3 || i >= len(steps)-3 {
-			pos = append(pos, i)
+// The family of paths Entry.Find is called with on e (member i of poolSize, built on demand): the
+// specials; the bracket shapes at every step position of the own path (after each of the first and
+// last three steps, as a step of their own before the last step, in front of everything), after the
+// entry's name alone, after "../name" and after "."; relative forms through the first children; and
+// a few with an unknown prefix (those leave an error on the root entry, so their number per history
+// is bounded).
+const poolVariants = 11
+
+type pathPool struct {
+	e     *yang.Entry
+	own   string
+	steps []string
+	pos   []int
+	kids  []string
+	pfx   bool
+}
+
+func (rb *readback) newPool(e *yang.Entry, own string) *pathPool {
+	p := &pathPool{e: e, own: own, steps: strings.Split(strings.TrimPrefix(own, "/"), "/")}
+	for i := range p.steps {
+		if i < 3 || i >= len(p.steps)-3 {
+			p.pos = append(p.pos, i)
 		}
 	}
-	join := func(ss []string) string { return "/" + strings.Join(ss, "/") }
-	for _, sh := range bracketShapes {
-		for _, i := range pos {
-			c := append([]string{}, steps...)
-			c[i] += sh
-			out = append(out, join(c))
-		}
-		// a step of its own before the last step, and in front of everything
-		c := append(append(append([]string{}, steps[:len(steps)-1]...), sh), steps[len(steps)-1])
-		out = append(out, join(c), sh+own, e.Name+sh, "../"+e.Name+sh, "."+sh)
-	}
-	for _, k := range sortedDirKeys(e, 2) {
-		out = append(out, k, k+"/..", k+"][", k+"[k=1]", k+"]k[/"+k)
-	}
+	p.kids = sortedDirKeys(e, 2)
 	if rb.pfxLeft > 0 {
 		rb.pfxLeft -= 4
-		out = append(out, "/zz:"+steps[0], "/zz:a][", "/][:a", "/zz:"+strings.Join(steps, "/zz:"))
+		p.pfx = true
 	}
-	return out
+	return p
+}
+
+func (p *pathPool) size() int {
+	n := 1 + len(findSpecials) + len(bracketShapes)*poolVariants + 5*len(p.kids)
+	if p.pfx {
+		n += 4
+	}
+	return n
+}
+
+func (p *pathPool) at(i int) string {
+	if i == 0 {
+		return p.own
+	}
+	i--
+	if i < len(findSpecials) {
+		return findSpecials[i]
+	}
+	i -= len(findSpecials)
+	if i < len(bracketShapes)*poolVariants {
+		sh, v := bracketShapes[i/poolVariants], i%poolVariants
+		last := len(p.steps) - 1
+		switch {
+		case v < 6:
+			k := p.pos[v%len(p.pos)]
+			c := append([]string{}, p.steps...)
+			c[k] += sh
+			return "/" + strings.Join(c, "/")
+		case v == 6:
+			c := append(append(append([]string{}, p.steps[:last]...), sh), p.steps[last])
+			return "/" + strings.Join(c, "/")
+		case v == 7:
+			return sh + p.own
+		case v == 8:
+			return p.e.Name + sh
+		case v == 9:
+			return "../" + p.e.Name + sh
+		}
+		return "." + sh
+	}
+	i -= len(bracketShapes) * poolVariants
+	if i < 5*len(p.kids) {
+		k := p.kids[i/5]
+		return []string{k, k + "/..", k + "][", k + "[k=1]", k + "]k[/" + k}[i%5]
+	}
+	i -= 5 * len(p.kids)
+	return []string{"/zz:" + p.steps[0], "/zz:a][", "/][:a", "/zz:" + strings.Join(p.steps, "/zz:")}[i%4]
 }
 
 func sortedDirKeys(e *yang.Entry, max int) []string {
@@ -504,11 +656,14 @@ func sortedDirKeys(e *yang.Entry, max int) []string {
 }
 
 // writeHeight: the methods that write (Print, Write) print what is below the receiver, through one
-// indenting writer per level, so a call costs (lines below) x (levels below).  They are called on
-// every entry / statement with at most so many levels below it (on the way back up, when the height
-// is known) while the output budget lasts; the roots of deep trees are printed by the caller from
-// 400 levels above the deepest node.
+// indenting writer per level, so a call costs (lines below) x (levels below).  They are called (on the
+// way back up, when the height is known, and while the output budget lasts) on the roots of the walks
+// - module entries, grouping entries, deviation entries, top-level statements - when at most
+// writeHeight levels are below them, and on every entry / statement with at most writeLowHeight
+// levels below it; the roots of deep trees are printed by the caller from 400 levels above the
+// deepest node.
 const writeHeight = 40
+const writeLowHeight = 2
 
 // entryWriters calls the methods of e that write.
 func (rb *readback) entryWriters(e *yang.Entry) {
@@ -522,17 +677,20 @@ func (rb *readback) entryWriters(e *yang.Entry) {
 // fields hold, and queues the entries kept beside its children.
 func (rb *readback) entry(e *yang.Entry, depth int, full bool) {
 	ctx := &callCtx{entry: e, noWrite: true}
-	pool := rb.findPool(e, e.Path())
+	pool := rb.newPool(e, e.Path())
 	if full && rb.findLeft > 0 {
 		// the first entries of the main walk and of the walk beside it: the whole pool
 		rb.findLeft--
-		ctx.find = pool
+		ctx.find = make([]string, pool.size())
+		for i := range ctx.find {
+			ctx.find[i] = pool.at(i)
+		}
 	} else {
 		// the others: five fixed paths and a window of twelve that moves through the pool from entry to entry,
 		// so that every member of the family is tried on some entry of every history with a dozen entries or more
-		ctx.find = append(make([]string, 0, 17), pool[0], "..", "x][", "x[k=1]", "]k[")
+		ctx.find = append(make([]string, 0, 17), pool.own, "..", "x][", "x[k=1]", "]k[")
 		for i := 0; i < 12; i++ {
-			ctx.find = append(ctx.find, pool[(rb.findRot+i)%len(pool)])
+			ctx.find = append(ctx.find, pool.at((rb.findRot+i)%pool.size()))
 		}
 		rb.findRot += 12
 	}
@@ -729,7 +887,7 @@ func (rb *readback) stmt(s *yang.Statement, depth int) (height int) {
 			height = h
 		}
 	}
-	if height <= writeHeight && rb.out.n <= rb.outLimit {
+	if (height <= writeLowHeight || (depth == 0 && height <= writeHeight)) && rb.out.n <= rb.outLimit {
 		rb.callAll(reflect.ValueOf(s), &callCtx{onlyWrite: true})
 	}
 	return height
